@@ -57,8 +57,7 @@ Definition EOther : N := 4.
 Record snap := { sfwd : list (N * N);     (* holder -> key, every live holder *)
                  srev : list (N * N);     (* key -> holder, every probed key that has an entry *)
                  stot : option N }.       (* size of the reverse map when the code exposes it *)
-(* o_mid: results of operations that ran re-entrantly inside this one (subscriber.Manager only) *)
-Record obs := { o_ret : ret; o_snaps : list snap; o_mid : list ret }.
+Record obs := { o_ret : ret; o_snaps : list snap }.
 
 Fixpoint ins_n (x : N) (l : list N) : list N :=
   match l with
@@ -152,7 +151,7 @@ Definition v_snap (st : vst) : list snap :=
   let fw := mk_fwd (v_ntes st) (fun n => match aget (v_alloc st) n with Some (s, c) => Some (pk s c) | None => None end) in
   [ {| sfwd := fw; srev := mk_rev (v_probe st) fw (fun k => get2 (v_usage st) (ps k) (pc k)); stot := Some (v_total st) |} ].
 
-Definition v_out (st : vst) (r : ret) : vst * obs * list N := (st, {| o_ret := r; o_snaps := v_snap st; o_mid := [] |}, []).
+Definition v_out (st : vst) (r : ret) : vst * obs * list N := (st, {| o_ret := r; o_snaps := v_snap st |}, []).
 
 Definition v_step (st : vst) (o : vop) : vst * obs * list N :=
   match o with
@@ -206,7 +205,7 @@ Definition q_snap (st : qst) : list snap :=
   let fw := mk_fwd (q_subs st) (aget (q_s2v st)) in
   [ {| sfwd := fw; srev := mk_rev (q_probe st) fw (aget (q_v2s st)); stot := Some (N.of_nat (length (q_v2s st))) |} ].
 
-Definition q_out (st : qst) (r : ret) : qst * obs * list N := (st, {| o_ret := r; o_snaps := q_snap st; o_mid := [] |}, []).
+Definition q_out (st : qst) (r : ret) : qst * obs * list N := (st, {| o_ret := r; o_snaps := q_snap st |}, []).
 
 Definition q_step (st : qst) (o : qop) : qst * obs * list N :=
   match o with
@@ -272,7 +271,7 @@ Definition s_snap (st : sst) : list snap :=
        stot := Some (N.of_nat (length (s_mac st))) |} ].
 
 Definition s_out (st : sst) (r : ret) (mk : list N) : sst * obs * list N :=
-  (st, {| o_ret := r; o_snaps := s_snap st; o_mid := [] |}, mk).
+  (st, {| o_ret := r; o_snaps := s_snap st |}, mk).
 
 Definition session_cap : N := 65535.
 
